@@ -31,10 +31,7 @@ pub fn run(args: &Args) -> Report {
         rep.note("no honest proof for this build");
         return rep;
     }
-    if !thorough {
-        let k = (base_rng.fork("pick").next() % honest.len() as u64) as usize;
-        honest = vec![honest.swap_remove(k)];
-    }
+    let _ = &mut honest;
     let mut idx = 0u64;
     for h in &honest {
         let sec = h.proof.config.security_bits();
@@ -74,8 +71,11 @@ pub fn run(args: &Args) -> Report {
                 let c = edit_class(e);
                 c.contains(" config.") || (c.contains(" public_input.") && !c.contains("main_page") && !c.contains("dynamic_params")) || c.contains("nonce")
             });
+            // quick runs every honest proof of the build: sample both groups
+            rng.shuffle(&mut keep);
+            keep.truncate(200);
             rng.shuffle(&mut rest);
-            rest.truncate(500);
+            rest.truncate(100);
             keep.extend(rest);
             leaf_edits = keep;
         }
@@ -87,8 +87,13 @@ pub fn run(args: &Args) -> Report {
         }
         edits.extend(leaf_edits.iter().cloned());
         edits.extend(groups.iter().cloned());
-        edits.extend(cross_blowup_queries());
-        let n_combo = if thorough { 2000 } else { 200 };
+        let mut cross = cross_blowup_queries();
+        if !thorough {
+            rng.shuffle(&mut cross);
+            cross.truncate(40);
+        }
+        edits.extend(cross);
+        let n_combo = if thorough { 2000 } else { 60 };
         for _ in 0..n_combo {
             edits.push(Edit::Multi(vec![rng.pick(&groups).clone(), rng.pick(&leaf_edits).clone()]));
         }
